@@ -134,6 +134,18 @@ def check_recovery(case, ctx):
             yy_, xx_ = int(round(ys_o[i])) + dy, int(round(xs_o[i])) + dx
             if 0 <= yy_ < ny and 0 <= xx_ < nx:
                 mask[yy_, xx_] = True
+    # non-finite data pixels are documented to be masked automatically,
+    # with or without a user mask
+    nanpix = np.zeros((ny, nx), bool)
+    for (k, dy_, dx_) in case.get('nan_points', []):
+        i = k % n
+        yy_, xx_ = int(round(ys_o[i])) + dy_, int(round(xs_o[i])) + dx_
+        if 0 <= yy_ < ny and 0 <= xx_ < nx and (dy_, dx_) != (0, 0):
+            nanpix[yy_, xx_] = True
+    if nanpix.any():
+        img = img.copy()
+        img[nanpix] = np.nan
+        ctx.event('nan_pixels_with_mask' if mask is not None else 'nan_pixels_no_mask')
     error = np.full((ny, nx), 0.7) if case['error'] else None
     if error is not None and case.get('error_bad'):
         # invalid error values only where no fit uses them: under the mask
@@ -215,7 +227,10 @@ def check_recovery(case, ctx):
         except Exception:
             continue
         yy, xx = np.mgrid[sl]
-        cnt = int((~mask[yy, xx]).sum()) if mask is not None else yy.size
+        good = ~nanpix[yy, xx]
+        if mask is not None:
+            good &= ~mask[yy, xx]
+        cnt = int(good.sum())
         if cnt < fs * fs:
             trunc = True
         if npf[k] != cnt:
@@ -269,7 +284,7 @@ def check_recovery(case, ctx):
         if xyb is not None and any(abs(xs_o[j] - xi[j]) >= xyb or
                                    abs(ys_o[j] - yi[j]) >= xyb for j in members):
             continue   # the truth is outside some member's position bounds
-        if any(npf[j] < 15 or (mask is not None and npf[j] < fs * fs - 3)
+        if any(npf[j] < 15 or ((mask is not None or nanpix.any()) and npf[j] < fs * fs - 3)
                for j in members):
             ctx.event('window_too_small')
             continue
@@ -310,7 +325,7 @@ def check_recovery(case, ctx):
     if nrec == n and lb is None and ped == 0 and not any(f & 8 for f in flags) \
             and all(gid[j] == gid[k] for k in range(n) for j in range(n)
                     if max(abs(xs_o[j] - xs_o[k]), abs(ys_o[j] - ys_o[k])) < reach) \
-            and xyb is None and mask is None:
+            and xyb is None and mask is None and not nanpix.any():
         with warnings.catch_warnings():
             warnings.simplefilter('ignore')
             resid = np.asarray(ph.make_residual_image(img * scale, psf_shape=(25, 25)), float)
@@ -361,6 +376,9 @@ def recovery_cases(draw):
             'mask_points': [list(m) for m in draw(st.lists(
                 st.tuples(st.integers(0, 6), st.integers(-2, 2), st.integers(-2, 2)),
                 min_size=0, max_size=3))],
+            'nan_points': [list(m) for m in draw(st.one_of(st.just([]), st.lists(
+                st.tuples(st.integers(0, 6), st.integers(-2, 2), st.integers(-2, 2)),
+                min_size=1, max_size=2)))],
             'error': draw(st.booleans()),
             'error_bad': draw(st.sampled_from([0, 0, 1, 2, 3, 7])),
             'xy_bounds': draw(st.sampled_from([None, None, None, 1.5, 0.5])),
